@@ -59,7 +59,7 @@ Init == /\ tr = 1 /\ l = 1 /\ ord = <<>>
         /\ IF NRuns = 0 THEN InitSem(1, <<>>, FALSE) ELSE InitSem(1, Runs[1].stdin, Runs[1].repl)
 
 Quiet2 == out' = out /\ diags' = diags /\ natlog' = natlog
-Silent == /\ status = "run" /\ SemStep /\ Quiet2 /\ status' \in {"run", "done"} /\ UNCHANGED tracevars
+Silent == /\ status = "run" /\ SemStep /\ Quiet2 /\ status' \in {"run", "done", "unspec"} /\ UNCHANGED tracevars
 PrintEv == /\ HasEv /\ Ev.ev \in {"print", "echo"} /\ status = "run"
            /\ SemStep /\ diags' = diags /\ natlog' = natlog /\ Len(out') = Len(out) + 1
            /\ LET rec == out'[Len(out')]  o == IF Ev.ev = "print" THEN Nfc(Ev.v) ELSE Ev.v IN
